@@ -16,3 +16,18 @@ Sem.vos Sem.vok Sem.required_vos: Sem.v Ast.vos
 Model.vo Model.glob Model.v.beautified Model.required_vo: Model.v Sem.vo
 Model.vio: Model.v Sem.vio
 Model.vos Model.vok Model.required_vos: Model.v Sem.vos
+Proofs/Reach.vo Proofs/Reach.glob Proofs/Reach.v.beautified Proofs/Reach.required_vo: Proofs/Reach.v Model.vo
+Proofs/Reach.vio: Proofs/Reach.v Model.vio
+Proofs/Reach.vos Proofs/Reach.vok Proofs/Reach.required_vos: Proofs/Reach.v Model.vos
+Proofs/InvReg.vo Proofs/InvReg.glob Proofs/InvReg.v.beautified Proofs/InvReg.required_vo: Proofs/InvReg.v Model.vo Proofs/Reach.vo
+Proofs/InvReg.vio: Proofs/InvReg.v Model.vio Proofs/Reach.vio
+Proofs/InvReg.vos Proofs/InvReg.vok Proofs/InvReg.required_vos: Proofs/InvReg.v Model.vos Proofs/Reach.vos
+Monitors.vo Monitors.glob Monitors.v.beautified Monitors.required_vo: Monitors.v Model.vo Proofs/Reach.vo Proofs/InvReg.vo
+Monitors.vio: Monitors.v Model.vio Proofs/Reach.vio Proofs/InvReg.vio
+Monitors.vos Monitors.vok Monitors.required_vos: Monitors.v Model.vos Proofs/Reach.vos Proofs/InvReg.vos
+Proofs/MonitorsSound.vo Proofs/MonitorsSound.glob Proofs/MonitorsSound.v.beautified Proofs/MonitorsSound.required_vo: Proofs/MonitorsSound.v Model.vo Monitors.vo Proofs/Reach.vo Proofs/InvReg.vo
+Proofs/MonitorsSound.vio: Proofs/MonitorsSound.v Model.vio Monitors.vio Proofs/Reach.vio Proofs/InvReg.vio
+Proofs/MonitorsSound.vos Proofs/MonitorsSound.vok Proofs/MonitorsSound.required_vos: Proofs/MonitorsSound.v Model.vos Monitors.vos Proofs/Reach.vos Proofs/InvReg.vos
+Properties/C09.vo Properties/C09.glob Properties/C09.v.beautified Properties/C09.required_vo: Properties/C09.v Model.vo Monitors.vo Proofs/Reach.vo Proofs/InvReg.vo Proofs/MonitorsSound.vo
+Properties/C09.vio: Properties/C09.v Model.vio Monitors.vio Proofs/Reach.vio Proofs/InvReg.vio Proofs/MonitorsSound.vio
+Properties/C09.vos Properties/C09.vok Properties/C09.required_vos: Properties/C09.v Model.vos Monitors.vos Proofs/Reach.vos Proofs/InvReg.vos Proofs/MonitorsSound.vos
